@@ -64,15 +64,21 @@ Proof.
       * destruct (opc =? 9).
         -- apply IH3. assert (H0 : cinv R (set_src s rest)) by (eapply cinv_fields; [exact H|reflexivity..]).
            destruct (a_state _ =? 1); [apply cinv_queue; exact H0|exact H0].
-        -- cbn. destruct (a_rd s); eapply cinv_fields; try exact H; reflexivity.
+        -- cbn [a_rd set_src]. destruct (a_rd s) as [[rid blen]|]; [|eapply cinv_fields; [exact H|reflexivity..]].
+           destruct (zlen payload >? blen); [|eapply cinv_fields; [exact H|reflexivity..]].
+           assert (H0 : cinv R (set_rd (set_src s rest) None)) by (eapply cinv_fields; [exact H|reflexivity..]).
+           match goal with |- cinv R (upd_log ?x _) => apply (cinv_fields R x); [|reflexivity..] end.
+           destruct (a_state _ =? 1); [|exact H0].
+           apply IH3. apply cinv_queue. eapply cinv_fields; [exact H0|reflexivity..].
     + (* run_cont *)
       intros s R k H. cbn [run_cont].
       assert (H1 : cinv R (add_fdone s k)).
       { destruct H as [A B C D E F]. constructor; cbn; auto. intros k0. specialize (F k0). unfold outstanding in *. cbn in *.
         rewrite cnt_app. cbn. lia. }
       destruct k as [|id]; [apply IH1; exact H1|].
-      assert (H2 : cinv R (upd_log (add_fdone s (KApp id)) (id, 0, []))) by (eapply cinv_fields; [exact H1|reflexivity..]).
-      cbn [a_next upd_log]. destruct (nlookup id _) as [[id2 payload]|]; [|exact H2].
+      set (s1 := if id <? 0 then add_fdone s (KApp id) else upd_log (add_fdone s (KApp id)) (id, 0, [])).
+      assert (H2 : cinv R s1) by (unfold s1; destruct (id <? 0); [exact H1|eapply cinv_fields; [exact H1|reflexivity..]]).
+      clearbody s1. destruct (nlookup id _) as [[id2 payload]|]; [|exact H2].
       destruct (a_state _ =? 1); [apply IH3; apply cinv_queue; exact H2|eapply cinv_fields; [exact H2|reflexivity..]].
     + (* flush *)
       intros s R k H. cbn [flush]. pose proof H as [A B C D E F]. rewrite A. cbn [andb].
@@ -125,7 +131,7 @@ Qed.
 
 Theorem wastep_inv s o : cinv [] s -> cinv [] (wastep s o).
 Proof.
-  intros H. destruct o as [rid|wid payload|opc payload|cid|wid wid2 payload2|accept]; cbn [wastep].
+  intros H. destruct o as [rid blen|wid payload|opc payload|cid|wid wid2 payload2|accept]; cbn [wastep].
   - apply (proj2 (proj2 (fuel_mutual wa_fuel))). eapply cinv_fields; [exact H|reflexivity..].
   - destruct (a_state s =? 1); [|eapply cinv_fields; [exact H|reflexivity..]].
     apply (proj2 (proj2 (fuel_mutual wa_fuel))). apply cinv_queue. exact H.
@@ -177,8 +183,8 @@ Qed.
    delivered although the loop keeps running. *)
 Theorem unserialised_flush_drops_the_read :
   let s := warun (wa_init false)
-             [WaRead 1; WaPeer 9 [7]; WaPoll 1000; WaWrite 100 [1; 2; 3]; WaPoll 1000; WaPoll 1000; WaPoll 1000;
+             [WaRead 1 70000; WaPeer 9 [7]; WaPoll 1000; WaWrite 100 [1; 2; 3]; WaPoll 1000; WaPoll 1000; WaPoll 1000;
               WaPeer 1 [65]; WaPoll 1000; WaPoll 1000; WaPoll 1000] in
-  a_rd s = Some 1 /\ a_rwait s = false /\ outstanding s = [] /\ a_wr s = None /\ a_inq s = [(1, [65])] /\
+  a_rd s = Some (1, 70000) /\ a_rwait s = false /\ outstanding s = [] /\ a_wr s = None /\ a_inq s = [(1, [65])] /\
   map (fun e => fst (fst e)) (a_log s) = [100].
 Proof. vm_compute. repeat split; reflexivity. Qed.
